@@ -126,6 +126,24 @@ void do_op(xenium::left_right<Data>* lr, const POp& op, OpRec& o, bool weak, int
     });
     xrt::op_end();
     rec.end(o);
+  } else if (op.id == 1) {
+    // read functor that returns (a reference to) the instance: read() must hand out a copy taken while the read guard is held
+    rec.begin(o);
+    xrt::op_begin(L_READ, true);
+    Data snap = lr->read([](const Data& d) -> const Data& {
+      g_mon->read_enter(&d);
+      g_tick->fetch_add(1, std::memory_order_relaxed);
+      g_mon->read_exit(&d);
+      return d;
+    });
+    xrt::op_end();
+    rec.end(o);
+    o.a = 0;
+    o.r2 = snap.v;
+    if (snap.shadow != snap.v * 3 + 1) {
+      xrt::Quiet q;
+      g_mon->err("mixed-state", fmt("value returned by read() of T%d is a mixture of two states (v=%" PRId64 ", shadow=%" PRId64 ")", tid, snap.v, snap.shadow));
+    }
   } else {
     int64_t bad = 0;
     rec.begin(o);
@@ -177,7 +195,7 @@ void run_lr(const ExecCtx& ctx, ExecOut& out) {
     int nops = rng.range(1, 5);
     for (int i = 0; i < nops; ++i) {
       bool upd = t < nwriters && rng.chance(3, 4);
-      w.prog.push_back(POp{(uint8_t)(upd ? L_UPDATE : L_READ), upd ? next_id++ : 0});
+      w.prog.push_back(POp{(uint8_t)(upd ? L_UPDATE : L_READ), upd ? next_id++ : (rng.chance(1, 3) ? 1 : 0)});
     }
   }
   std::vector<xrt::ThreadSpec> specs((size_t)n);
